@@ -847,7 +847,8 @@ class InClass:
                         try:
                             k = k()
                         except Exception:
-                            k = _Smallest
+                            if callable(k):
+                                k = _Smallest
                     if k is None:
                         k = _Smallest
 
